@@ -66,7 +66,7 @@ def run(ctx):
         if k < 40:
             ctx.add_vm('api_gen_chao1', [v], g1)
             ctx.add_vm('api_spec_var_chao', [v], sv)
-        if len(ctx.violations) > 20:
+        if ctx.nprop() > 8:
             break
 
     # ---- set measures
@@ -143,7 +143,7 @@ def run(ctx):
         if k < 30:
             ctx.add_vm('api_overlap', [A, B], mo)
             ctx.add_vm('api_jaccard', [A, B], mj)
-        if len(ctx.violations) > 20:
+        if ctx.nprop() > 8:
             break
     ctx.assumptions += ['numpy sum / float64 division within 1e-9 of the exact rational',
                         'pandas Series.dropna and Python set semantics (modelled: set of non-missing values)']
